@@ -196,6 +196,10 @@ def run(ops, K=2, needs_hist=(2,), chains=2, seed=0, J=1, init_cfgs=(), included
                "kernel_keys": keys, "included": list(included), "excluded": list(excluded),
                "via_builder": via_builder, "seed": seed,
                "postkey": [k for k in keys if k not in excluded][0]}
+        hdr["scenario"] = {"ops": [list(o) for o in ops], "K": K, "needs_hist": list(needs_hist), "chains": chains,
+                           "seed": seed, "J": J, "init_cfgs": list(init_cfgs), "included": list(included),
+                           "excluded": list(excluded), "store_kernel_states": store_kernel_states,
+                           "via_builder": via_builder}
         hdr.update(meta or {})
         traces.append({"hdr": hdr, "ev": ev})
     return traces
